@@ -357,10 +357,42 @@ def single_field_prots():
         out.append((d, pyspec.protected_bytes(d)))
     return out
 
+def product_prots():
+    """protected-header classes for full products with entry points: built (empty, each single field, a multi-field
+    one) and decoded (retained bytes: empty, a0, indefinite empty, non-canonical map)"""
+    multi = d_header(alg=d_reg(1, -7), crit=[d_reg(1, 4)], kid=b"k", rest=[(I(99), I(1)), (T("x"), NULL)])
+    out = single_field_prots() + [(d_protected(None, multi), pyspec.protected_bytes(d_protected(None, multi)))]
+    for pb in (b"", b"\xa0", b"\xbf\xff", b"\xbf\x18\x01\x38\x06\xff", b"\xa2\x04\x41\x6b\x01\x26"):
+        out.append((d_protected(pb, D_EMPTY_HEADER), pb))
+    return out
+
 def cases_C03(rng, tier):
     out = []
     lens = Q(tier, LEN_CLASSES_Q, LEN_CLASSES_T)
     seen = {}
+    # full product: every helper entry point x every protected-header class (body and signer)
+    prots = product_prots()
+    for bi, (body, bb) in enumerate(prots):
+        aad, pl, sg = b"aad", b"payload", b"sg"
+        m1 = A(body, D_EMPTY_HEADER, B(pl), B(sg)); m1d = A(body, D_EMPTY_HEADER, NULL, B(sg))
+        w1 = pyspec.sig_structure("CoseSign1", bb, None, aad, pl)
+        out.append(case("helperdesc", "sign1.tbs_data", enc(m1), aad, fam="product:sign1.tbs_data", expect="ok " + w1.hex()))
+        out.append(case("helperdesc", "sign1.verify_signature", enc(m1), aad, fam="product:sign1.verify", expect="ok %s %s" % (sg.hex(), w1.hex())))
+        out.append(case("helperdesc", "sign1.tbs_detached_data", enc(m1d), pl, aad, fam="product:sign1.tbs_detached", expect="ok " + w1.hex()))
+        out.append(case("helperdesc", "sign1.verify_detached_signature", enc(m1d), pl, aad, fam="product:sign1.verify_detached",
+                        expect="ok %s %s" % (sg.hex(), w1.hex())))
+        for si in (bi, (bi * 5 + 3) % len(prots), (bi * 7 + 1) % len(prots)):
+            sp, spb = prots[si]
+            sigs = ('a', [d_signature(d_protected(None, D_EMPTY_HEADER), D_EMPTY_HEADER, b"s0"), d_signature(sp, D_EMPTY_HEADER, b"s1")])
+            ms = A(body, D_EMPTY_HEADER, B(pl), sigs); msd = A(body, D_EMPTY_HEADER, NULL, sigs)
+            ws = pyspec.sig_structure("CoseSignature", bb, spb, aad, pl)
+            out.append(case("helperdesc", "sign.tbs_data", enc(ms), aad, b"\x01", fam="product:sign.tbs_data", expect="ok " + ws.hex()))
+            out.append(case("helperdesc", "sign.verify_signature", enc(ms), b"\x01", aad, fam="product:sign.verify", expect="ok 7331 " + ws.hex()))
+            out.append(case("helperdesc", "sign.tbs_detached_data", enc(msd), pl, aad, b"\x01", fam="product:sign.tbs_detached", expect="ok " + ws.hex()))
+            out.append(case("helperdesc", "sign.verify_detached_signature", enc(msd), b"\x01", pl, aad, fam="product:sign.verify_detached",
+                            expect="ok 7331 " + ws.hex()))
+            w0 = pyspec.sig_structure("CoseSignature", bb, b"", aad, pl)
+            out.append(case("helperdesc", "sign.tbs_data", enc(ms), aad, b"\x00", fam="product:sign.tbs_data", expect="ok " + w0.hex()))
     for _ in range(Q(tier, 500, 5000)):
         ctx = rng.choice(list(pyspec.SIG_CTX))
         body, bb = gen_prot_desc(rng)
@@ -467,6 +499,18 @@ def cases_C04(rng, tier):
             out.append(case("helperdesc", fn, enc(m), aad, fam=fn, expect="ok %s %s" % (tag.hex(), want.hex())))
         else:
             out.append(case("helperdesc", fn, enc(m), aad, fam=fn + "-nopayload", expect="panic", may_panic=True))
+    for p, pb in product_prots():
+        aad, pl, tag, k = b"aad", b"payload", b"tg", b"kk"
+        for fn, ctx, m in (("mac0.verify_tag", "CoseMac0", A(p, D_EMPTY_HEADER, B(pl), B(tag))),
+                           ("mac.verify_tag", "CoseMac", A(p, D_EMPTY_HEADER, B(pl), B(tag), ('a', [])))):
+            out.append(case("helperdesc", fn, enc(m), aad, fam="product:" + fn, expect="ok %s %s" % (tag.hex(), pyspec.mac_structure(ctx, pb, aad, pl).hex())))
+        if p[1][0] == NULL:      # built headers can also go through the builders
+            for bt in ("CoseMac0", "CoseMac"):
+                for opn in ("create_tag", "try_create_tag"):
+                    ops = [A(T("protected"), p[1][1]), A(T("payload"), B(pl)), A(T(opn), B(aad), A(I(0), B(k)))]
+                    want = k + pyspec.mac_structure(bt, pb, aad, pl)
+                    out.append(case("build", bt, enc(('a', ops)), fam="product:" + opn,
+                                    check=lambda c, o, w=want: None if ("h" + w.hex()) in o else "tag created from other bytes than the MAC_structure"))
     for _ in range(Q(tier, 40, 400)):
         bad = d_protected(None, unencodable_header(rng))
         ctx = rng.choice(list(pyspec.MAC_CTX))
@@ -530,6 +574,34 @@ def cases_C05(rng, tier):
         ctx = rng.choice(list(pyspec.ENC_CTX))
         out.append(case("encdata", ctx, enc(bad), b"a", fam="unencodable-protected", expect="panic", may_panic=True))
         out.append(case("helperdesc", "encrypt0.decrypt", enc(A(bad, D_EMPTY_HEADER, B(b"c"))), b"a", fam="unencodable-protected", expect="panic", may_panic=True))
+    for p, pb in product_prots():
+        aad, ct, pt, k = b"aad", b"ct", b"pt", b"kk"
+        out.append(case("helperdesc", "encrypt0.decrypt", enc(A(p, D_EMPTY_HEADER, B(ct))), aad, fam="product:encrypt0.decrypt",
+                        expect="ok %s %s" % (ct.hex(), pyspec.enc_structure("CoseEncrypt0", pb, aad).hex())))
+        out.append(case("helperdesc", "encrypt.decrypt", enc(A(p, D_EMPTY_HEADER, B(ct), ('a', []))), aad, fam="product:encrypt.decrypt",
+                        expect="ok %s %s" % (ct.hex(), pyspec.enc_structure("CoseEncrypt", pb, aad).hex())))
+        for rc in pyspec.ENC_CTX:
+            m = A(p, D_EMPTY_HEADER, B(ct), ('a', []))
+            if rc in ("CoseEncrypt", "CoseEncrypt0"):
+                out.append(case("helperdesc", "recipient.decrypt", enc(m), tstr(rc), aad, fam="product:recipient.decrypt-refused", expect="panic", may_panic=True))
+            else:
+                out.append(case("helperdesc", "recipient.decrypt", enc(m), tstr(rc), aad, fam="product:recipient.decrypt",
+                                expect="ok %s %s" % (ct.hex(), pyspec.enc_structure(rc, pb, aad).hex())))
+        if p[1][0] == NULL:
+            for opn in ("create_ciphertext", "try_create_ciphertext"):
+                for bt in ("CoseEncrypt", "CoseEncrypt0"):
+                    ops = [A(T("protected"), p[1][1]), A(T(opn), B(pt), B(aad), A(I(0), B(k)))]
+                    want = k + bytes([len(pt)]) + pt + pyspec.enc_structure(bt, pb, aad)
+                    out.append(case("build", bt, enc(('a', ops)), fam="product:" + opn,
+                                    check=lambda c, o, w=want: None if ("h" + w.hex()) in o else "ciphertext created with other additional data than the Enc_structure"))
+                for rc in pyspec.ENC_CTX:
+                    ops = [A(T("protected"), p[1][1]), A(T(opn), T(rc), B(pt), B(aad), A(I(0), B(k)))]
+                    if rc in ("CoseEncrypt", "CoseEncrypt0"):
+                        out.append(case("build", "CoseRecipient", enc(('a', ops)), fam="product:" + opn + "-refused", expect="panic", may_panic=True))
+                    else:
+                        want = k + bytes([len(pt)]) + pt + pyspec.enc_structure(rc, pb, aad)
+                        out.append(case("build", "CoseRecipient", enc(('a', ops)), fam="product:" + opn,
+                                        check=lambda c, o, w=want: None if ("h" + w.hex()) in o else "ciphertext created with other additional data than the Enc_structure"))
     for _ in range(Q(tier, 250, 2500)):
         p_hdr, pb = builder_header_choice(rng)
         aad, pt, k = blob(rng, lens), rbytes(rng), rbytes(rng, 2)
